@@ -13,6 +13,7 @@ import (
 
 	"github.com/vipnode/vipnode/v2/pool"
 	"github.com/vipnode/vipnode/v2/pool/store"
+	"github.com/vipnode/vipnode/v2/request"
 	"verif/sim/kernel"
 	"verif/sim/seams"
 )
@@ -107,7 +108,14 @@ type snapItem struct {
 	want string
 }
 
-func balSnap(b *store.Balance) string {
+func balSnap(b *store.Balance) (snap string) {
+	// (a number whose digits somebody else rewrites in place may not even be well-formed when it is read: math/big
+	// panics on that; for the oracle it is a value that changed)
+	defer func() {
+		if r := recover(); r != nil {
+			snap = fmt.Sprintf("%s|<not a well-formed number any more: %v>", b.Account, r)
+		}
+	}()
 	return fmt.Sprintf("%s|%s|%s", b.Account, b.Credit.String(), b.Deposit.String())
 }
 func nodeSnap(n *store.Node) string {
@@ -715,15 +723,26 @@ func runC07Race(s *kernel.Sim) {
 	accrue := s.Choose("accrue", 2) == 1
 	var mu sync.Mutex
 	oks := 0
+	// the same 20 bytes can be written in several ways (a signature is valid for the spelling it was made for): it
+	// is one wallet, and requests naming it differently race like any others
+	respelled := s.Choose("respelled", 3) == 0
 	for t := 0; t < nW; t++ {
 		name := fmt.Sprintf("withdraw%d", t)
 		conn := w.Dial(host)
 		nonce := start.UnixNano() + int64(1+t)
+		args := wl.WSigned("pool_withdraw", nonce)
+		if respelled {
+			spelling := []string{wl.Addr, strings.ToLower(wl.Addr), "0x" + strings.ToUpper(wl.Addr[2:])}[t%3]
+			var err error
+			if args, err = (request.AddressRequest{Method: "pool_withdraw", Address: spelling, Nonce: nonce}).SignedArgs(wl.Key); err != nil {
+				panic(err)
+			}
+		}
 		s.Go(name, func() {
 			s.Gate(name)
 			ctx, cancel := context.WithCancel(s.Ctx)
 			defer cancel()
-			err := conn.Agent.Call(ctx, nil, "pool_withdraw", wl.WSigned("pool_withdraw", nonce)...)
+			err := conn.Agent.Call(ctx, nil, "pool_withdraw", args...)
 			mu.Lock()
 			if err == nil {
 				oks++
